@@ -221,6 +221,11 @@ def run_impl(case):
                     # by name: objects of K.T are called like the attributes of K and vice versa
                     'eTn': [_by_name(on, x, KT.extension, an) for x in xs],
                     'iTn': [_by_name(an, y, KT.intention, on) for y in ys],
+                    # listings with repeated entries (the same sets), on both sides of the duality
+                    'eTr': [canon(KT.extension_i(list(x))) for x in case.get('repsO') or []],
+                    'iKr': [canon(K.intention_i(list(x))) for x in case.get('repsO') or []],
+                    'iTr': [canon(KT.intention_i(list(y))) for y in case.get('repsA') or []],
+                    'eKr': [canon(K.extension_i(list(y))) for y in case.get('repsA') or []],
                     # restricted to a base set, on both sides of the duality
                     'eTb': [[canon(KT.extension_i(list(x), base_objects_i=list(b))) for x in xs] for b in bA],
                     'iKb': [[canon(K.intention_i(list(x), base_attrs_i=list(b))) for x in xs] for b in bA],
@@ -346,12 +351,14 @@ def to_coq(case, out):
             if kind in ('trans', 'compl'):
                 o = '(IOk (%s, %s, %s))' % (_ctx_term(d, v['a']), _ctx_term(d, v['b']), _ires_bool(v['eq']))
             elif kind == 'primes':
-                if not all(all(_idx_ok(x) for x in v[f]) for f in ('eT', 'iT', 'iK', 'eK', 'eTn', 'iTn')):
+                if not all(all(_idx_ok(x) for x in v[f]) for f in ('eT', 'iT', 'iK', 'eK', 'eTn', 'iTn',
+                                                                     'eTr', 'iKr', 'iTr', 'eKr')):
                     raise _Bad()
                 if not all(all(all(_idx_ok(x) for x in per) for per in v[f]) for f in ('eTb', 'iKb', 'iTb', 'eKb')):
                     raise _Bad()
-                o = '(IOk (%s, %s, %s, %s, (%s, %s), (%s, %s, %s, %s)))' % tuple(
-                    coq(v[f]) for f in ('eT', 'iT', 'iK', 'eK', 'eTn', 'iTn', 'eTb', 'iKb', 'iTb', 'eKb'))
+                o = '(IOk (%s, %s, %s, %s, (%s, %s), (%s, %s, %s, %s), (%s, %s, %s, %s)))' % tuple(
+                    coq(v[f]) for f in ('eT', 'iT', 'iK', 'eK', 'eTn', 'iTn', 'eTr', 'iKr', 'iTr', 'eKr',
+                                        'eTb', 'iKb', 'iTb', 'eKb'))
             elif kind == 'latT':
                 o = '(IOk (%s, %s, %s))' % (_lat_term(d, v['L']), _lat_term(d, v['LT']), _lat_term(d, v['L2']))
             elif kind == 'relabel':
@@ -369,8 +376,9 @@ def to_coq(case, out):
     if kind == 'trans':
         return 'CTrans %s %s %s %s' % (b, strs, k, o)
     if kind == 'primes':
-        return 'CPrimes %s %s %s %s %s' % (b, coq(case['table']), coq(case.get('basesA') or []),
-                                           coq(case.get('basesO') or []), o)
+        return 'CPrimes %s %s %s %s %s %s %s' % (b, coq(case['table']), coq(case.get('basesA') or []),
+                                                 coq(case.get('basesO') or []), coq(case.get('repsO') or []),
+                                                 coq(case.get('repsA') or []), o)
     if kind == 'latT':
         return 'CLatT %s %s %s %s' % (b, strs, k, o)
     if kind == 'compl':
@@ -411,7 +419,10 @@ def stats(case):
             'warm_up': '+'.join(q for q, _, _ in (case.get('warm') or [])) or 'none',
             'rename_history': ('none' if not case.get('hist') else
                                '+'.join(case['hist']['warm']) + '/set:' + ''.join(case['hist']['set'])),
-            'bases': len(case.get('basesA') or []) + len(case.get('basesO') or [])}
+            'bases': len(case.get('basesA') or []) + len(case.get('basesO') or []),
+            'repeated_listings': len(case.get('repsO') or []) + len(case.get('repsA') or []),
+            'homonyms': ('o' if len(set(case['onames'])) < len(case['onames']) else '') +
+                        ('a' if len(set(case['anames'])) < len(case['anames']) else '') or 'none'}
 
 
 # ------------------------------------------------------------------ generation
@@ -470,6 +481,13 @@ def random_case(rng, kind, max_dim, broken=False):
             an[rng.randrange(w)] = rng.choice([b for b in BROKEN if b not in an])
     else:
         an = random_names(rng, w)
+    homonyms = kind in ('trans', 'latT', 'relabel', 'mono') and rng.random() < 0.3
+    if homonyms:
+        which = rng.choice(['o', 'a', 'oa'])
+        if 'o' in which:
+            on = with_homonyms(rng, on)
+        if 'a' in which and not broken:
+            an = with_homonyms(rng, an)
     extra = {}
     if kind == 'relabel':
         ps, pc = _perm(rng, h), _perm(rng, w)
@@ -482,6 +500,8 @@ def random_case(rng, kind, max_dim, broken=False):
             ps, pc = list(range(h)), list(range(w))
         if mode in ('rename', 'identity-rename'):
             on2, an2 = random_names(rng, h), random_names(rng, w)
+            if not homonyms and rng.random() < 0.3:     # distinct -> homonymous
+                on2, an2 = with_homonyms(rng, on2), with_homonyms(rng, an2)
         else:
             on2, an2 = [on[i] for i in ps], [an[j] for j in pc]
         extra = {'ps': ps, 'pc': pc, 'onames2': on2, 'anames2': an2}
@@ -489,9 +509,35 @@ def random_case(rng, kind, max_dim, broken=False):
     if kind == 'primes':
         extra['basesA'] = random_bases(rng, w)
         extra['basesO'] = random_bases(rng, h)
+        extra['repsO'] = random_listings(rng, h)
+        extra['repsA'] = random_listings(rng, w)
     if kind != 'relabel' and rng.random() < 0.5:
         extra['hist'] = random_hist(rng, kind, on, an)
     return _mk(kind, be, t, on, an, algo, tkind, **extra)
+
+
+def random_listings(rng, n):
+    """Listings over range(n) with repeated entries; half of them padded to exactly n entries."""
+    out = []
+    for _ in range(4):
+        k = rng.randint(1, max(1, n - 1))
+        base = rng.sample(range(n), min(k, n))
+        length = n if rng.random() < 0.5 else rng.randint(len(base) + 1, n + 2)
+        lst = base + [rng.choice(base) for _ in range(max(0, length - len(base)))]
+        rng.shuffle(lst)
+        out.append(lst)
+    return out
+
+
+def with_homonyms(rng, names):
+    """Copy some names onto other positions (names are positional labels: homonyms are legal)."""
+    names = list(names)
+    n = len(names)
+    if n >= 2:
+        for _ in range(rng.choice([1, 1, 2])):
+            i, j = rng.sample(range(n), 2)
+            names[j] = names[i]
+    return names
 
 
 def random_bases(rng, n):
@@ -533,7 +579,8 @@ def exhaustive_cases():
             yield _mk('trans', be, t, on, an, tkind='exhaustive')
             yield _mk('primes', be, t, on, an, tkind='exhaustive',
                       basesA=[list(reversed(range(w))), list(range(0, w, 2))],
-                      basesO=[list(reversed(range(h))), list(range(h - 1, h))])
+                      basesO=[list(reversed(range(h))), list(range(h - 1, h))],
+                      repsO=[[0] * h, [h - 1] + [0] * (h - 1)], repsA=[[0] * w, [w - 1] + [0] * (w - 1)])
             yield _mk('compl', be, t, on, an_not, tkind='exhaustive')
             for algo in ('CbO', 'Lindig'):      # algo=None is Lindig for a FormalContext
                 # one parents query on a position that varies with the table, before L.T
@@ -601,6 +648,8 @@ def _drop_row(case, i):
     c['onames'] = [s for k, s in enumerate(case['onames']) if k != i]
     if case.get('basesO') is not None:
         c['basesO'] = _reindex_bases(case['basesO'], i)
+    if case.get('repsO') is not None:
+        c['repsO'] = [r for r in _reindex_bases(case['repsO'], i) if r]
     if case.get('hist'):
         c['hist'] = dict(case['hist'], on0=[s for k, s in enumerate(case['hist']['on0']) if k != i])
     if case['kind'] == 'relabel':
@@ -616,6 +665,8 @@ def _drop_col(case, j):
     c['anames'] = [s for k, s in enumerate(case['anames']) if k != j]
     if case.get('basesA') is not None:
         c['basesA'] = _reindex_bases(case['basesA'], j)
+    if case.get('repsA') is not None:
+        c['repsA'] = [r for r in _reindex_bases(case['repsA'], j) if r]
     if case.get('hist'):
         c['hist'] = dict(case['hist'], an0=[s for k, s in enumerate(case['hist']['an0']) if k != j])
     if case['kind'] == 'relabel':
@@ -655,7 +706,7 @@ def shrink(case):
         c = dict(case)
         c['hist'] = None
         out.append(c)
-    for key in ('basesA', 'basesO'):
+    for key in ('basesA', 'basesO', 'repsO', 'repsA'):
         for k in range(len(case.get(key) or [])):
             c = dict(case)
             c[key] = case[key][:k] + case[key][k + 1:]
